@@ -56,10 +56,21 @@ type Case struct {
 	// Twin: a second tunnel (to another target) carries traffic both ways
 	// through the same proxy at the same time; nothing may cross between tunnels.
 	// Shaped: the proxy is served on a trafficshape.Listener (no shapes configured).
-	Shaped   bool   `json:"shaped,omitempty"`
-	Twin     bool   `json:"twin,omitempty"`
-	TwinSize int    `json:"twin_size,omitempty"`
-	TwinSeed uint64 `json:"twin_seed,omitempty"`
+	Shaped bool `json:"shaped,omitempty"`
+	Twin   bool `json:"twin,omitempty"`
+	// TwinWhileOpen: the second tunnel has to carry its traffic and finish while
+	// the first one is still open and has gone quiet (otherwise it may finish
+	// while the first one is being torn down).
+	TwinWhileOpen bool `json:"twin_while_open,omitempty"`
+	// Head: how the CONNECT itself is marked: "" (HTTP/1.1), "close" (HTTP/1.1
+	// with Connection: close), "http10", "http10-keep-alive".
+	Head string `json:"head,omitempty"`
+	// OpaqueDial: the dial function the proxy was given returns a net.Conn that
+	// has no CloseWrite (a wrapper, as metering or TLS-less custom dialers do):
+	// end-of-stream from the client can then only be passed on by closing it.
+	OpaqueDial bool   `json:"opaque_dial,omitempty"`
+	TwinSize   int    `json:"twin_size,omitempty"`
+	TwinSeed   uint64 `json:"twin_seed,omitempty"`
 }
 
 // runTwin drives the second tunnel and reports what it saw.
@@ -125,6 +136,21 @@ func runTwin(proxyAddr string, tl net.Listener, size int, seed uint64, T time.Du
 		v.Addf("C04/twin/any/target-to-client-bytes-differ", "second concurrent tunnel: %s", kit.Diff(down, gotDown))
 	}
 	return v
+}
+
+// opaqueConn hides every optional method of the connection it wraps.
+type opaqueConn struct{ net.Conn }
+
+func connectHead(kind string) []byte {
+	switch kind {
+	case "close":
+		return []byte("CONNECT target.test:443 HTTP/1.1\r\nHost: target.test:443\r\nConnection: close\r\n\r\n")
+	case "http10":
+		return []byte("CONNECT target.test:443 HTTP/1.0\r\nHost: target.test:443\r\n\r\n")
+	case "http10-keep-alive":
+		return []byte("CONNECT target.test:443 HTTP/1.0\r\nHost: target.test:443\r\nConnection: keep-alive\r\n\r\n")
+	}
+	return []byte("CONNECT target.test:443 HTTP/1.1\r\nHost: target.test:443\r\n\r\n")
 }
 
 func (s Stream) bytes() []byte { return kit.Bytes(s.Seed, s.Size) }
@@ -364,6 +390,18 @@ func runOnce(c Case, T time.Duration) (v kit.Verdict) {
 	p := martian.NewProxy()
 	p.SetTimeout(60 * time.Second)
 	p.SetDial(dialer.Dial)
+	if c.OpaqueDial {
+		p.SetDial(func(network, addr string) (net.Conn, error) {
+			conn, err := dialer.Dial(network, addr)
+			if err != nil {
+				return nil, err
+			}
+			if !strings.HasPrefix(addr, "target.test") {
+				return conn, nil // the second tunnel half-closes both ways at once
+			}
+			return opaqueConn{conn}, nil
+		})
+	}
 	if c.Route == "downstream" {
 		p.SetDownstreamProxy(&url.URL{Scheme: "http", Host: "downstream.test:3128"})
 	}
@@ -421,7 +459,7 @@ func runOnce(c Case, T time.Duration) (v kit.Verdict) {
 			early = len(c2t)
 		}
 	}
-	head := []byte("CONNECT target.test:443 HTTP/1.1\r\nHost: target.test:443\r\n\r\n")
+	head := connectHead(c.Head)
 	conn.SetWriteDeadline(time.Now().Add(10 * time.Second))
 	first := early
 	if c.Early == "split" {
@@ -443,6 +481,9 @@ func runOnce(c Case, T time.Duration) (v kit.Verdict) {
 		class := "no-answer-to-connect"
 		if netkit.IsTimeout(err) {
 			class = "timeout-answer-to-connect"
+		}
+		if c.Unreachable && c.Route == "direct" {
+			return kit.Failf("C04/connect/unreachable/"+class, "CONNECT (%s) to an unreachable target: no 502 reached the client: %v", map[string]string{"": "HTTP/1.1"}[c.Head]+c.Head, err)
 		}
 		return kit.Failf("C04/connect/"+sh+"/"+class, "%v", err)
 	}
@@ -526,6 +567,21 @@ func runOnce(c Case, T time.Duration) (v kit.Verdict) {
 	}
 	if len(v) > 0 {
 		return v
+	}
+
+	if c.Twin && c.TwinWhileOpen {
+		// this tunnel is established, has delivered everything written so far and
+		// is now quiet in both directions: the other tunnel must not depend on it
+		select {
+		case tv := <-twinDone:
+			twinCollected = true
+			v = append(v, tv...)
+		case <-time.After(T + 2*time.Second):
+			v.Addf("C04/twin/"+sh+"/timeout-second-tunnel-stalls-while-first-is-quiet", "the second tunnel (%d bytes each way) did not finish within %v while the first tunnel was open and idle", c.TwinSize, T+2*time.Second)
+		}
+		if len(v) > 0 {
+			return v
+		}
 	}
 
 	expectEOF := func(col *collector, who, closer string) bool {
@@ -664,11 +720,21 @@ func genCase(t *rapid.T) Case {
 		c.DownCoalesce = rapid.IntRange(0, 2).Draw(t, "down_coalesce") == 0
 	}
 	c.Shaped = rapid.IntRange(0, 3).Draw(t, "shaped") == 0
-	if c.Route == "direct" && rapid.IntRange(0, 14).Draw(t, "unreachable") == 0 {
+	if c.Route == "direct" && rapid.IntRange(0, 9).Draw(t, "unreachable") == 0 {
 		c.Unreachable = true
+	}
+	c.Head = rapid.SampledFrom([]string{"", "", "", "close", "http10", "http10-keep-alive"}).Draw(t, "head")
+	if c.Route == "direct" && rapid.IntRange(0, 5).Draw(t, "opaque_dial") == 0 {
+		c.OpaqueDial = true
+		if c.Closer == "client-half-early" {
+			// without half-close on the target connection the end of the client's
+			// stream is passed on by closing it: the target cannot answer afterwards
+			c.Closer = "client-half"
+		}
 	}
 	if !c.Unreachable && rapid.IntRange(0, 2).Draw(t, "twin") == 0 {
 		c.Twin = true
+		c.TwinWhileOpen = rapid.Bool().Draw(t, "twin_while_open")
 		c.TwinSize = rapid.SampledFrom([]int{1, 4096, 32768, 32769, 100000, 300000}).Draw(t, "twin_size")
 		c.TwinSeed = rapid.Uint64Range(1, 1<<20).Draw(t, "twin_seed")
 	}
@@ -701,6 +767,21 @@ func classes(c Case) []string {
 	}
 	if c.Shaped {
 		out = append(out, "traffic-shaped-listener")
+		if c.Twin && c.TwinWhileOpen {
+			out = append(out, "shaped+second-tunnel-while-first-quiet")
+		}
+	}
+	if c.Twin && c.TwinWhileOpen {
+		out = append(out, "second-tunnel-while-first-quiet")
+	}
+	if c.Head != "" {
+		out = append(out, "connect-head-"+c.Head)
+	}
+	if c.Unreachable && (c.Head == "close" || c.Head == "http10") {
+		out = append(out, "unreachable+closing-connect")
+	}
+	if c.OpaqueDial {
+		out = append(out, "dialled-conn-without-closewrite")
 	}
 	return out
 }
